@@ -4,11 +4,13 @@ package main
 // the full recency order), plus a reference written from the property statement.
 
 import (
+	"encoding/json"
 	"fmt"
 	"math/rand"
 	"os"
 	"strconv"
 	"strings"
+	"sync"
 	"time"
 
 	"github.com/absfs/absnfs"
@@ -16,7 +18,18 @@ import (
 
 func init() {
 	checks["C21"] = checkC21
-	replays["C21"] = opsReplay("lru", runLruOps, func(r *Result, ops, impl []string) { lruOracle(r, ops, impl) })
+	c21ops := opsReplay("lru", runLruOps, func(r *Result, ops, impl []string) { lruOracle(r, ops, impl) })
+	replays["C21"] = func(r *Result, raw json.RawMessage) {
+		var rp struct {
+			Ops []string `json:"ops"`
+		}
+		json.Unmarshal(raw, &rp)
+		if len(rp.Ops) > 0 && rp.Ops[0] == "fresh-put-survives-concurrent-gets" {
+			freshPutSurvivesConcurrentGets(r, 60000)
+			return
+		}
+		c21ops(r, raw)
+	}
 }
 
 type fakeInfo struct{ name string }
@@ -446,6 +459,13 @@ func checkC21(r *Result, rng *rand.Rand, thorough bool) {
 			r.sample(map[string]any{"ops": ops[:14], "impl": im[:14]})
 		}
 	}
+	// the same contract while several goroutines use the cache (the two-phase Get of the model: decision under the read
+	// lock, removal of an expired entry under the write lock only if the entry found THEN is expired)
+	iters := 6000
+	if thorough {
+		iters = 60000
+	}
+	freshPutSurvivesConcurrentGets(r, iters)
 	// recorded finding witness (corpus): negative entries must not survive disabling
 	w := []string{"lru newattr c 4 1000", "lru confneg c 1 0", "lru putneg c 0 2f61", "lru confneg c 0 0", "lru get c 1 2f61", "lru order c"}
 	im := runLruOps(w)
@@ -492,4 +512,90 @@ func checkC21(r *Result, rng *rand.Rand, thorough bool) {
 	cases = append(cases, Case{Ops: cops})
 	impl = append(impl, cim)
 	compareWithModel(r, "lru", cases, impl, runLruOps)
+}
+
+// freshPutSurvivesConcurrentGets: "a lookup returns the most recent value stored for the key if it has not expired,
+// been invalidated or been evicted" with readers running. One writer stores an already-expired listing (TTL 1 ns), then
+// a fresh one (TTL 1 h) for the same key and looks it up at once; eight readers Get the key all the time. The fresh
+// value was neither invalidated nor evicted (capacity 8, one key), so the writer's Get must hit and return it — a
+// reader that removes "the expired entry" it saw earlier must not remove the one that replaced it. Both caches.
+func freshPutSurvivesConcurrentGets(r *Result, iters int) {
+	absnfs.VerifClockOff()
+	r.noteCase("fresh-put-survives-concurrent-gets", true)
+	r.Histogram["fresh-put-iterations"] += iters
+	{
+		d := absnfs.NewDirCache(time.Hour, 8, 1000)
+		stop := make(chan struct{})
+		var wg sync.WaitGroup
+		for g := 0; g < 8; g++ {
+			wg.Add(1)
+			go func() {
+				defer wg.Done()
+				for {
+					select {
+					case <-stop:
+						return
+					default:
+						d.Get("/k")
+					}
+				}
+			}()
+		}
+		lost := 0
+		old := []os.FileInfo{fakeInfo{"old"}}
+		fresh := []os.FileInfo{fakeInfo{"fresh"}}
+		for i := 0; i < iters; i++ {
+			d.UpdateTTL(time.Nanosecond)
+			d.Put("/k", old)
+			d.UpdateTTL(time.Hour)
+			d.Put("/k", fresh)
+			got, ok := d.Get("/k")
+			if !ok || len(got) != 1 || got[0].Name() != "fresh" {
+				lost++
+			}
+		}
+		close(stop)
+		wg.Wait()
+		if lost > 0 {
+			r.violate(Violation{Class: "C21/fresh-value-lost-under-concurrent-gets", What: fmt.Sprintf("DirCache: in %d of %d iterations a listing stored with a 1 h TTL, not invalidated and not evicted, was gone at the next Get while other goroutines were looking the key up", lost, iters),
+				Ops: []string{"fresh-put-survives-concurrent-gets"}})
+			return
+		}
+	}
+	{
+		c := absnfs.NewAttrCache(time.Hour, 8)
+		stop := make(chan struct{})
+		var wg sync.WaitGroup
+		for g := 0; g < 8; g++ {
+			wg.Add(1)
+			go func() {
+				defer wg.Done()
+				for {
+					select {
+					case <-stop:
+						return
+					default:
+						c.Get("/k")
+					}
+				}
+			}()
+		}
+		lost := 0
+		for i := 0; i < iters; i++ {
+			c.UpdateTTL(time.Nanosecond)
+			c.Put("/k", &absnfs.NFSAttrs{Size: 1})
+			c.UpdateTTL(time.Hour)
+			c.Put("/k", &absnfs.NFSAttrs{Size: 2})
+			got, ok := c.Get("/k")
+			if !ok || got == nil || got.Size != 2 {
+				lost++
+			}
+		}
+		close(stop)
+		wg.Wait()
+		if lost > 0 {
+			r.violate(Violation{Class: "C21/fresh-value-lost-under-concurrent-gets", What: fmt.Sprintf("AttrCache: in %d of %d iterations attributes stored with a 1 h TTL, not invalidated and not evicted, were gone at the next Get while other goroutines were looking the key up", lost, iters),
+				Ops: []string{"fresh-put-survives-concurrent-gets"}})
+		}
+	}
 }
